@@ -198,6 +198,9 @@ type corpusMutant struct {
 	Old    string   `json:"old"`
 	New    string   `json:"new"`
 	Alarms []string `json:"alarms"`
+	// Always: replayed in every thorough run of its properties, not only when the sample hits it (the mutants that
+	// were found unreported when the silent survivors were read, mutation/SURVIVORS.md)
+	Always bool `json:"always"`
 }
 
 // mutantsFor: a deterministic sample (every k-th) of the corpus mutants that were reported for the property.
@@ -220,8 +223,16 @@ func mutantsFor(prop, verif string, max int) []corpusMutant {
 		return all
 	}
 	var out []corpusMutant
+	picked := map[string]bool{}
 	for i := 0; i < max; i++ {
-		out = append(out, all[i*len(all)/max])
+		m := all[i*len(all)/max]
+		out = append(out, m)
+		picked[m.ID] = true
+	}
+	for _, m := range all {
+		if m.Always && !picked[m.ID] {
+			out = append(out, m)
+		}
 	}
 	return out
 }
